@@ -10,7 +10,7 @@ from typing import Dict, List, Optional
 
 from .. import bmd, hexref
 from ..common import Ctx, MachineryError
-from ..renderlib import NATURAL_EDGES, SIDES, Geometry, abstract_file, build_mesh, vdist
+from ..renderlib import shake_vertices, NATURAL_EDGES, SIDES, Geometry, abstract_file, build_mesh, vdist
 from ..tlc import run_tlc
 from .grading_judge import _apply, _rand_frame
 
@@ -162,6 +162,18 @@ def gen_program(rng: random.Random, focus: str, pid: int) -> dict:
             for s in range(6):
                 if rng.random() < 0.2:
                     op["sproj"][s] = rng.choice(LABELS)
+        # a side two operations have in common, projected from both of them (to the same surface): it is one face of the mesh,
+        # however the two operations number its corners
+        owners: Dict[frozenset, list] = {}
+        for op in ops:
+            for s in range(6):
+                owners.setdefault(frozenset(op["pts0"][c] for c in hexref.SIDE_CORNERS[SIDES[s]]), []).append((op, s))
+        for pair in owners.values():
+            if len(pair) == 2 and rng.random() < 0.5:
+                label = rng.choice(LABELS)
+                for op, s in pair:
+                    op["sproj"][s] = label
+        for op in ops:
             for c in range(8):
                 if rng.random() < 0.15:
                     labs = sorted(rng.sample(LABELS, rng.choice([1, 1, 2])))
@@ -326,6 +338,7 @@ def execute(prog: dict, geo: Geometry, ctx: Ctx, with_vtk: bool = True, keep: Op
         mesh, lofts = build_mesh(prog, geo)
         if keep is not None:
             keep["lofts"] = lofts
+            keep["mesh"] = mesh
     except Exception as err:  # pylint: disable=broad-except
         return {"error": f"build:{type(err).__name__}", "msg": str(err)[:300]}
     path = os.path.join(ctx.tmp, "prog.bmd")
@@ -386,6 +399,8 @@ def run_focus(ctx: Ctx, prop: str, focus: str, n: int, clauses_of_interest=None)
         recs.append(rec)
         geos[prog["id"]] = geo
         if prog.get("reuse") and "lofts" in kept:
+            # (the vertices of the first, written mesh are moved in place before its operations serve a second mesh)
+            shake_vertices(kept["mesh"])
             rec2 = reuse_in_second_mesh(prog, kept["lofts"], geo, ctx, rng)
             if rec2 is not None and "error" in rec2:
                 ctx.violation(f"program-fails:{rec2['error']}", f"{focus} program: a second mesh made of the same operations could not be "
